@@ -66,7 +66,7 @@ def k_constants(base, chk):
     s = z3.Solver()
     sq = sum(int(l) << (51 * i) for i, l in enumerate(vals["sqrtM1"]))
     conds = [all(0 <= int(l) <= K.M51 for v in vals.values() for l in v), list(vals["feZero"]) == [0] * 5, list(vals["feOne"]) == [1, 0, 0, 0, 0]]
-    chk.add(Ob("constants feZero, feOne, sqrtM1: limbs < 2^51, values 0 and 1", "unsat" if all(conds) else "sat", 0, [K.F + "init"], "concrete (init executed by the engine)"))
+    chk.fact("constants feZero, feOne, sqrtM1: limbs < 2^51, values 0 and 1", all(conds), [K.F + "init"], "concrete (init executed by the engine)")
     r = z3.Int("r")
     s.add(r == sq, (r * r + 1) % K.P != 0)
     chk.add(Ob("sqrtM1^2 = -1 mod p", str(s.check()), time.time() - t0, [K.F + "init"], "LIA (concrete)"))
